@@ -142,7 +142,7 @@ def check_case(prop, case, il, ml, ctx):
         if mode == "spec":
             # the model's own layers must agree with the specification (model = spec theorems)
             for key in ("m", "n", "c"):
-                if key in M and M[key] != M["s"]:
+                if key in M and M[key] != M["s"] and M[key] != "SKIPPED":
                     probs.append(f"MODEL-LAYER {key} differs from spec: {M[key][:120]!r} vs {M['s'][:120]!r}")
         if mode == "spec" and "m" in I and "c" in I and I["m"] != I["c"]:
             probs.append(f"{op}: cache answer differs from mapper answer: {I['c'][:160]!r} vs {I['m'][:160]!r}")
@@ -219,7 +219,8 @@ def check_case(prop, case, il, ml, ctx):
         _nontrivial(ctx, case, " c " in case or " f:" in case)
         _kind(ctx, "A:depth" + str(case.count(" c ")))
     elif op == "W":
-        _eq(probs, "cache bytes", I.get("w", ""), M.get("w", ""))
+        if M.get("w") != "SKIPPED":
+            _eq(probs, "cache bytes", I.get("w", ""), M.get("w", ""))
         wb = hexbytes(I.get("w", "x")) if I.get("w", "").startswith("x") else b""
         if len(wb) >= 24:
             nc, nm, np_, sb = (int.from_bytes(wb[8 + 4 * k:12 + 4 * k], "little") for k in range(4))
